@@ -44,6 +44,10 @@ CHECKS["C02"] = ("exploration", "conservation / ownership / eligibility / fee-bo
   "every transaction built by AutoCreateRawTransaction, CreateRawTransaction, CreateStakingTransaction, CreateBindingTransaction and the API AutoCreateTransaction over seeded UTXO sets (few / hundreds of small / large+dust / mixed coins, immature and locked coins) and request sequences is decoded and checked for input ownership, eligibility, output exactness, change address, fee equality and bounds (relay minimum measured on the size after the wallet signs it)",
   "trusts the reference ledger, mass-core policy constants (relay fee, standard size) and the monitor's own reservation set; the band between the funding regions is unspecified", "§5 C02")
 
+CHECKS["C03"] = ("exploration", "per-call sign monitor: witness-stripped byte equality, witness structure and hash-type byte, independent consensus script-engine run per input, and a refused-attempt monitor for wrong passphrases interleaved with right ones",
+  "every SignRawTx result over seeded transactions (1-12 inputs across addresses and classes incl. staking/binding withdrawals and pending parents, six sighash flags, lock times, payloads) is verified input by input by mass-core's script engine with consensus flags; every wrong passphrase of a hostile family must be refused without output or side effect",
+  "trusts mass-core's script engine and btcec for signature validity; SINGLE without a matching output not explored", "§5 C03")
+
 NOT_APPLICABLE = {}
 
 def main():
